@@ -2009,3 +2009,72 @@ V("C28-revert-fix-bare-split-header-gets-no-headers","C28",EH,"""				if splitHea
 						dst.objectHeaders = headersFromObject(firstObject.Parent(), h.cnr, h.obj)
 					}
 				}"""}])
+
+# ---- rules added after batch E
+FTG="pkg/local_object_storage/blobstor/fstree/fstree_write_generic.go"; FTF="pkg/local_object_storage/blobstor/fstree/fstree.go"; EEX="pkg/local_object_storage/engine/exists.go"; EDL="pkg/local_object_storage/engine/delete.go"; PVL="pkg/services/object/put/validation.go"; GPU="pkg/innerring/processors/governance/process_update.go"; BPA="pkg/innerring/processors/balance/process_assets.go"; MMD="pkg/local_object_storage/metabase/metadata.go"
+V("C13-no-space-for-any-path-error","C13",FTG,"""			case errors.Is(pe.Err, syscall.ENOSPC):
+				err = common.ErrNoSpace
+				_ = os.RemoveAll(tmpPath)""","""			case errors.Is(pe.Err, syscall.ENOSPC), errors.Is(pe.Err, syscall.EDQUOT) || pe.Op == "write":
+				err = common.ErrNoSpace
+				_ = os.RemoveAll(tmpPath)""",rule="C13.R6")
+V("C15-batch-skips-unusable-directory","C15",FTF,"""		if err := util.MkdirAllX(filepath.Dir(p), t.Permissions); err != nil {
+			return fmt.Errorf("mkdirall for %q: %w", p, err)
+		}
+		writeDataUnits = append(""","""		if err := util.MkdirAllX(filepath.Dir(p), t.Permissions); err != nil {
+			continue
+		}
+		writeDataUnits = append(""",rule="C15.R7")
+V("C15-batch-empty-check-inverted-form","C15",FTF,"""		if len(data) == 0 {
+			continue
+		}
+		p := t.treePath(addr)
+		if err := util.MkdirAllX""","""		if len(data) != 0 {
+			if err := t.prepareDir(addr); err != nil {
+				return err
+			}
+		}
+		if len(data) == 0 {
+			continue
+		}
+		p := t.treePath(addr)
+		if err := util.MkdirAllX""",expect="silent",more=[{"file":FTF,"old":"// PutBatch puts a batch of objects in the storage.","new":"func (t *FSTree) prepareDir(addr oid.Address) error {\n	return util.MkdirAllX(filepath.Dir(t.treePath(addr)), t.Permissions)\n}\n\n// PutBatch puts a batch of objects in the storage."}])
+V("C20-put-acknowledged-over-a-marked-copy","C20",EEX,"""			if shard.IsErrObjectExpired(err) {
+				return true, nil
+			}
+""","""			if shard.IsErrObjectExpired(err) || errors.Is(err, apistatus.ErrObjectNotFound) {
+				return true, nil
+			}
+""",rule="C20.R8")
+V("C24-pooled-payload-hasher","C24",PVL,"""			t.hash = sha256.New()""","""			t.hash = pooledSHA256()""",rule="C24.R9",more=[{"file":PVL,"old":"func (t *validatingTarget) Close() (oid.ID, error) {","new":"var sha256Pool = sync.Pool{New: func() any { return sha256.New() }}\n\nfunc pooledSHA256() hash.Hash { return sha256Pool.Get().(hash.Hash) }\n\nfunc (t *validatingTarget) Close() (oid.ID, error) {"},{"file":PVL,"old":'	"hash"\n',"new":'	"hash"\n	"sync"\n'}])
+V("C24-pooled-payload-hasher-reset","C24",PVL,"""			t.hash = sha256.New()""","""			t.hash = pooledSHA256()""",expect="silent",more=[{"file":PVL,"old":"func (t *validatingTarget) Close() (oid.ID, error) {","new":"var sha256Pool = sync.Pool{New: func() any { return sha256.New() }}\n\nfunc pooledSHA256() hash.Hash {\n	h := sha256Pool.Get().(hash.Hash)\n	h.Reset()\n	return h\n}\n\nfunc (t *validatingTarget) Close() (oid.ID, error) {"},{"file":PVL,"old":'	"hash"\n',"new":'	"hash"\n	"sync"\n'}])
+V("C26-keeper-chosen-before-holder-test","C26",EDL,"""		if !slices.Contains(shardIDs, id) {
+			continue
+		}
+
+		if keeperShard == "" {
+			keeperShard = id
+			continue
+		}
+""","""		if keeperShard == "" {
+			keeperShard = id
+			continue
+		}
+
+		if !slices.Contains(shardIDs, id) {
+			continue
+		}
+""",rule="C26.R8")
+V("C36-next-list-from-remembered-proposal","C36",GPU,"""	newAlphabet, err := newAlphabetList(fsChainAlphabet, mainnetAlphabet)""","""	if gp.lastProposal != nil {
+		fsChainAlphabet = gp.lastProposal
+	}
+	newAlphabet, err := newAlphabetList(fsChainAlphabet, mainnetAlphabet)
+	gp.lastProposal = newAlphabet""",rule="C36.R6",more=[{"file":"pkg/innerring/processors/governance/processor.go","old":"	// Processor of events related to governance in the network.\n	Processor struct {","new":"	// Processor of events related to governance in the network.\n	Processor struct {\n		lastProposal keys.PublicKeys"}])
+V("C39-cheque-rounded-to-nearest","C39",BPA,"""bp.converter.ToFixed8(lock.Amount())""","""bp.converter.ToFixed8(lock.Amount()+5000)""",rule="C39.R5")
+V("C44-orphan-mark-never-removed","C44",MMD,"""	haveObject := bytes.Equal(k, pref)
+
+	if haveObject {""","""	haveObject := bytes.Equal(k, pref)
+	if !haveObject {
+		return diff, errNonPhy
+	}
+
+	if haveObject {""",rule="C44.R7")
